@@ -45,6 +45,10 @@ fn make_key(x: &[u8], y: &[u8], order: u8) -> coset::CoseKey {
     if order & 8 != 0 {
         key.key_id = vec![0xC0, 0x5E, order];
     }
+    if order & 32 != 0 {
+        // the algorithm member of a COSE_Key is optional
+        key.alg = None;
+    }
     if order & 16 != 0 {
         key.key_ops = [coset::KeyOperation::Assigned(iana::KeyOperation::Verify), coset::KeyOperation::Assigned(iana::KeyOperation::Sign)].into_iter().collect();
     }
@@ -271,7 +275,7 @@ pub fn check(ctx: &mut Ctx, c: &Case, prefixes: bool) -> Result<(), String> {
         ctx.class("second extension setter call");
     }
     if c.att.is_some() && c.key_order >= 8 {
-        ctx.class("COSE key with key id / key operations");
+        ctx.class("COSE key with key id / key operations / without alg");
     }
     if c.att.is_some() && (c.key_order & 7) % 6 != 0 {
         ctx.class("COSE key parameters not in builder order");
@@ -312,7 +316,7 @@ fn case() -> impl Strategy<Value = Case> {
         2 => proptest::option::weighted(0.8, proptest::collection::vec(any::<u8>(), 0..70)).prop_map(Ext::Get),
     ];
     let ext2 = proptest::option::weighted(0.25, ext.clone());
-    (rp, counter, any::<u8>(), att, ext, prop_oneof![4 => Just(0u8), 2 => 0u8..6, 1 => 0u8..32], ext2).prop_map(|(rp_id, counter, flags, att, ext, key_order, ext2)| Case { rp_id, counter, flags: flags & 0x1D, att, ext, key_order, ext2 })
+    (rp, counter, any::<u8>(), att, ext, prop_oneof![4 => Just(0u8), 2 => 0u8..6, 2 => 0u8..64], ext2).prop_map(|(rp_id, counter, flags, att, ext, key_order, ext2)| Case { rp_id, counter, flags: flags & 0x1D, att, ext, key_order, ext2 })
 }
 
 fn check_any(ctx: &mut Ctx, c: &Case, prefixes: bool) -> Result<(), String> {
